@@ -119,12 +119,44 @@ def lookupT {β : Type} (k : Text) : List (Text × β) → Option β
   | [] => none
   | (k', v) :: rest => if k' = k then some v else lookupT k rest
 
+/-- split at the first slash -/
+def splitSlash : Text → Option (Text × Text)
+  | [] => none
+  | c :: cs =>
+    if c = '/' then some ([], cs)
+    else match splitSlash cs with
+      | some (a, b) => some (c :: a, b)
+      | none => none
+
 /-- `types.ParseArchitecture` -/
 def parseArch (s : Text) : Text := (lookupT s parseArchTable).getD s
 /-- `Architecture.ToAPK` -/
 def toAPK (a : Text) : Text := (lookupT (parseArch a) toAPKTable).getD (parseArch a)
 /-- `Architecture.ToOCIPlatform` (OS is the constant "linux") -/
 def toOCIPlatform (a : Text) : Platform := (lookupT (parseArch a) toOCITable).getD ⟨parseArch a, []⟩
+
+/-! ### the platform the property expects, written down independently of the code's tables -/
+
+/-- apk-style spellings and the OCI architecture they denote -/
+def Spec.aliases : List (Text × Text) :=
+  [("x86".toList, "386".toList), ("x86_64".toList, "amd64".toList), ("aarch64".toList, "arm64".toList),
+   ("armhf".toList, "arm/v6".toList), ("armv7".toList, "arm/v7".toList), ("loongarch64".toList, "loong64".toList)]
+
+/-- the architectures apko supports, as OCI `architecture[/variant]` strings -/
+def Spec.knownArchs : List Text :=
+  ["386", "amd64", "arm64", "arm/v6", "arm/v7", "loong64", "ppc64le", "riscv64", "s390x"].map String.toList
+
+def Spec.canonArch (s : Text) : Text := (lookupT s Spec.aliases).getD s
+
+/-- `architecture/variant` of a supported architecture splits at the slash; any other string is
+taken as the architecture itself -/
+def Spec.platformOf (s : Text) : Platform :=
+  let a := Spec.canonArch s
+  if a ∈ Spec.knownArchs then
+    match splitSlash a with
+    | some (x, v) => ⟨x, v⟩
+    | none => ⟨a, []⟩
+  else ⟨a, []⟩
 
 /-! ## 4. Sorting of byte strings (`sort.Strings`) -/
 
@@ -142,7 +174,7 @@ def Impl.indexEntries (imgs : List (Text × Nat)) : List (Nat × Platform) :=
 
 /-- one entry per requested architecture, carrying that architecture's platform -/
 def Spec.IndexOk (imgs : List (Text × Nat)) (entries : List (Nat × Platform)) : Prop :=
-  entries.length = imgs.length ∧ ∀ p ∈ imgs, (p.2, toOCIPlatform p.1) ∈ entries
+  entries.length = imgs.length ∧ ∀ p ∈ imgs, (p.2, Spec.platformOf p.1) ∈ entries
 
 instance (imgs entries) : Decidable (Spec.IndexOk imgs entries) := by
   unfold Spec.IndexOk; infer_instance
@@ -340,7 +372,7 @@ instance (ic created out) : Decidable (Spec.LabelsOk ic created out) := by
 def Spec.ScalarsOk (ic : ImageCfg) (created arch : Text) (o : OciConfig) : Prop :=
   o.workingDir = ic.workdir ∧ o.stopSignal = ic.stopSignal ∧ o.user = ic.runAs ∧
   o.author = "github.com/chainguard-dev/apko".toList ∧ o.os = "linux".toList ∧ o.created = created ∧
-  o.architecture = (toOCIPlatform arch).arch ∧ o.variant = (toOCIPlatform arch).variant
+  o.architecture = (Spec.platformOf arch).arch ∧ o.variant = (Spec.platformOf arch).variant
 
 def Spec.ConfigOk (shlex : Text → Option (List Text)) (ic : ImageCfg) (created arch : Text) (o : OciConfig) : Prop :=
   Spec.EntrypointOk shlex ic o ∧ Spec.EnvOk ic.env o.env ∧ Spec.VolumesOk ic.volumes o.volumes ∧
